@@ -373,7 +373,12 @@ class LiteralMethod(DeserializationMethod):
             if self.coercer is not None:
                 for cls in self.types:
                     try:
-                        return self._get(self.coercer(cls, data))
+                        coerced = self.coercer(cls, data)
+                        # the coercer result is type-checked as everywhere else
+                        if isinstance(coerced, cls) and (
+                            cls is bool or coerced.__class__ is not bool
+                        ):
+                            return self._get(coerced)
                     except (KeyError, TypeError, ValidationError):
                         pass
             raise ValidationError(format_error(self.error, data))
